@@ -1,15 +1,22 @@
-import Xsm.Proofs.Bridge
+import Xsm.Proofs.RootTarget
 /-
 From one transition to whole runs (async flavour; every send hook only enqueues).
 -/
 namespace XSM
 open Spec
 
-/-- the transition of a candidate is target-less / internal, or has a resolvable plain target -/
-def CandOK (m : Machine) (c : Cand) : Prop :=
+/-- the transition of a candidate is target-less / internal, or has a resolvable plain target
+    (a state that is neither a history pseudo-state nor the root) -/
+def CandPlain (m : Machine) (c : Cand) : Prop :=
   c.t.target = none ∨ c.t.target = some "" ∨
-    ∃ tstr tgt nt, c.t.target = some tstr ∧ tstr ≠ "" ∧ resolveRobust m c.src tstr = some tgt ∧
-      m.root.at tgt = some nt ∧ nt.kind ≠ .history ∧ tgt ≠ []
+    (∃ tstr tgt nt, c.t.target = some tstr ∧ tstr ≠ "" ∧ resolveRobust m c.src tstr = some tgt ∧
+      m.root.at tgt = some nt ∧ nt.kind ≠ .history ∧ tgt ≠ [])
+
+/-- … or targets the machine root -/
+def CandOK (m : Machine) (c : Cand) : Prop :=
+  CandPlain m c ∨
+    (∃ tstr, c.t.target = some tstr ∧ tstr ≠ "" ∧ resolveRobust m c.src tstr = some [] ∧
+      m.root.kind ≠ .history)
 
 /-- what selection must guarantee (discharged separately from `Select.lean`):
     sources are ancestors-or-self of active states, transitions are well-targeted -/
@@ -17,17 +24,24 @@ def SelSound (m : Machine) : Prop :=
   ∀ cfg env ev sel, Legal m.root cfg → selectTransitions m cfg env ev = .ok sel →
     ∀ c ∈ sel, CandOK m c ∧ ∃ q ∈ cfg, c.src <+: q
 
+def SelSoundPlain (m : Machine) : Prop :=
+  ∀ cfg env ev sel, Legal m.root cfg → selectTransitions m cfg env ev = .ok sel →
+    ∀ c ∈ sel, CandPlain m c ∧ ∃ q ∈ cfg, c.src <+: q
+
+theorem SelSoundPlain.toSelSound {m : Machine} (h : SelSoundPlain m) : SelSound m :=
+  fun cfg env ev sel hl hs c hc => ⟨Or.inl (h cfg env ev sel hl hs c hc).1, (h cfg env ev sel hl hs c hc).2⟩
+
 /-- one selected transition keeps the configuration legal — whether its actions succeed, raise or
     are missing (then it is rolled back) -/
 theorem legal_microstep (h : Hooks) (hok : HooksOK h) (fl : Flavor) (m : Machine) (ev : Ev)
-    (c : Cand) (s : St) (hwf : WF m.root) (hi : InitOK m.root) (hl : Legal m.root s.cfg)
-    (hc : CandOK m c) (hsrc : c.src ∈ s.cfg) :
+    (c : Cand) (s : St) (hwf : WF m.root) (hi : InitOK m.root)
+    (hl : Legal m.root s.cfg) (hc : CandOK m c) (hsrc : c.src ∈ s.cfg) :
     Legal m.root (execute h fl m ev (planTransition m s.cfg s.hist c) s).cfg := by
   have internal_case : ∀ (as : List ActionRef),
       Legal m.root (execute h fl m ev { actions := as, internal := true } s).cfg := by
     intro as
     rw [execute_internal_cfg h hok fl m ev _ s rfl]; exact hl
-  rcases hc with hn | he | ⟨tstr, tgt, nt, ht, hne, hres, htgt, hnh, htne⟩
+  rcases hc with (hn | he | ⟨tstr, tgt, nt, ht, hne, hres, htgt, hnh, htne⟩) | ⟨tstr, ht, hne, hres, hk⟩
   · have : planTransition m s.cfg s.hist c = { actions := c.t.actions, internal := true } := by
       unfold planTransition; simp only [hn]
     rw [this]; exact internal_case _
@@ -41,6 +55,13 @@ theorem legal_microstep (h : Hooks) (hok : HooksOK h) (fl : Flavor) (m : Machine
           decide_true, if_true]
       rw [this]; exact internal_case _
     · exact legal_microstep_plain h hok fl m ev c s hwf hi hl hsrc tstr ht hne tgt hres hself nt htgt hnh htne
+  · by_cases hself : ([] : Path) = c.src ∧ c.t.reenter = false
+    · have : planTransition m s.cfg s.hist c = { actions := c.t.actions, internal := true } := by
+        unfold planTransition
+        simp only [ht, hne, if_false, hres, hself.1, hself.2, Bool.not_false, Bool.and_true,
+          decide_true, if_true]
+      rw [this]; exact internal_case _
+    · exact legal_microstep_root h hok fl m ev c s hwf hi hk hl tstr ht hne hres hself
 
 theorem src_active {m : Machine} {cfg : List Path} (hL : Legal m.root cfg) {p q : Path}
     (hq : q ∈ cfg) (hp : p <+: q) : p ∈ cfg := prefix_closed hL.parent_active hp hq
@@ -209,13 +230,6 @@ theorem startEntries_eq (m : Machine) (hwf : WF m.root) (hi : InitOK m.root) :
   refine ⟨rfl, ?_⟩
   simp only [List.map_cons, List.map_map, tag, Function.comp_def, List.map_id']
   exact (enterDefault_cons [] m.root).symm
-
-theorem legal_enterDefault_root (root : SNode) (hwf : WF root) (hk : root.kind ≠ .history)
-    (c : List Path) (hc : ∀ q, q ∈ c ↔ q ∈ enterDefault [] root) : Legal root c := by
-  apply legal_of_legalAt root hwf c
-  · exact LegalAt_congr _ c [] root (fun q _ => (hc q).symm) (enterDefault_legal [] root hwf hk)
-  · intro q hq
-    exact enterDefault_at root [] root rfl hwf q ((hc q).1 hq)
 
 /-- the initial entry: if it raises no error, the configuration is the (legal) default descent -/
 theorem initialEntry_legal (h : Hooks) (hok : HooksOK h) (fl : Flavor) (m : Machine) (ev : Option String)
